@@ -260,9 +260,13 @@ func (g *typeGen) fill(v reflect.Value, depth int, mode string) {
 			v.SetUint(uint64(r.Intn(4)))
 		}
 	case reflect.Float32, reflect.Float64:
-		if full {
+		switch {
+		case v.Kind() == reflect.Float64 && r.Intn(2) == 0:
+			// values that need all 64 bits (a float64 written or read through a 32 bit path shows)
+			v.SetFloat([]float64{48.858370123456, 0.1, 1.0 / 3, 123456789.123456789, -2.2250738585072014e-308, 1.7976931348623157e308, 1e-7 + 1e-20, 9007199254740993}[r.Intn(8)])
+		case full:
 			v.SetFloat(f64vals[1+r.Intn(len(f64vals)-1)])
-		} else {
+		default:
 			v.SetFloat(f64vals[r.Intn(len(f64vals))])
 		}
 	case reflect.String:
